@@ -49,9 +49,66 @@ def oracle(name, bounds, raw):
                 return 'thread %s: %s answered WOULDBLOCK while no other operation was in progress (none called and not returned, no store of a returned one still buffered)' % (t, last[t][0])
     return None
 
+def lazy_project(raw):
+    """per cds_lfht_resize_lazy_count call of the trace: (size argument, count, [value of resize_target met by each compare-and-swap], [value each one tried to install])"""
+    cur = {}; out = []
+    for l in raw.splitlines():
+        p = l.split()
+        if len(p) < 3 or not p[0].isdigit(): continue
+        t, k = p[0], p[1]
+        if k == 'call' and p[2] == 'lazycount': cur[t] = {'count': int(p[3], 0), 'size': None, 'obs': [], 'new': []}
+        elif k == 'note' and p[2] == 'lazysize' and t in cur: cur[t]['size'] = int(p[3])
+        elif k == 'cas' and p[2] == 'target+0' and t in cur:
+            cur[t]['obs'].append(int(p[-1], 0)); cur[t]['new'].append(int(p[4][4:], 0))
+        elif k == 'ret' and p[2] == 'lazycount' and t in cur: out.append(cur.pop(t))
+    return out
+def lazy_model_compare(ctx, cases, blocks):
+    """Progress/LazyCount.v shrink_run on the observed target values: the implementation made exactly the attempts the model makes, each with the model's comparison value"""
+    model = build_model_driver(ctx, 'lazycount', 'ExtractLazyCount.v', 'lazycount_driver.ml')
+    if not model: return
+    calls = [(c, b) for c, bl in zip(cases, blocks) for b in bl if b['obs'] and b['size'] is not None and b['count'] < b['size']]
+    inp = ''.join('T %d %d %s\n' % (b['size'], min(max(b['count'], 1), 8), ' '.join(str(x) for x in b['obs'])) for _, b in calls)
+    rc, mo, _ = sh([model], inp=inp, timeout=120); ml = mo.splitlines(); nbad = 0
+    for ((p, s), b), m in zip(calls, ml):
+        ok = m.startswith('T -> ') and m != 'T -> spin' and int(m.split()[-1]) == len(b['obs'])
+        if ok: ctx.cov['traces_validated_against_impl'] = ctx.cov.get('traces_validated_against_impl', 0) + 1
+        else:
+            nbad += 1
+            if nbad <= 2: ctx.fail('correspondence', 'LazyCount.shrink_run vs the compare-and-swap attempts of cds_lfht_resize_lazy_count', 'prog %s schedule %s...: attempts met resize_target = %s (size argument %d, count %d); model: %s' % (p, s[:40], b['obs'][:8] + (['...'] if len(b['obs']) > 8 else []), b['size'], b['count'], m),
+                                   concrete={'scenario': 'scen_lfhtx', 'prog': p, 'schedule': s, 'args': ['8', '8', 'o', '0', '0', '1'], 'observed': b, 'model': m})
+    if len(ml) != len(calls): ctx.fail('harness', 'lazycount_driver output', 'expected %d lines, got %d' % (len(calls), len(ml)))
+    ctx.cov['input_distribution']['lazy resize requests (scheduled)'] = {'calls_with_attempts': len(calls), 'with_retry': sum(1 for _, b in calls if len(b['obs']) > 1)}
+
+def lazy_seq(ctx):
+    """sequential differential: the real cds_lfht_resize_lazy_count against LazyCount.lazy_count over every relation of count / size argument / target / published size"""
+    exe = os.path.join(BUILD, 'lfht_lazy')
+    rc, so, se = sh(['gcc', '-O1', '-g', '-w', '-include', REPO + '/include/config.h', '-I' + REPO + '/include', '-I' + REPO + '/src', os.path.join(HARN, 'seqdiff/lfht_lazy.c')] + X.SRCS + ['-o', exe, '-lpthread'])
+    if rc: ctx.fail('harness', 'build of seqdiff/lfht_lazy.c', se[-600:]); return
+    model = build_model_driver(ctx, 'lazycount', 'ExtractLazyCount.v', 'lazycount_driver.ml')
+    if not model: return
+    n = 4000 if ctx.quick() else 100000
+    cmds = [[exe, str(n), str(ctx.seed * 10 + i)] for i in range(4)]
+    for (rc, out), cmd in zip(run_many(cmds, timeout=60), cmds):
+        lines = out.splitlines()
+        if rc != 0 or (lines and ' -> ' not in lines[-1]):
+            last = lines[-1] if lines else ''
+            ctx.fail('oracle', 'cds_lfht_resize_lazy_count returns (sequential call, nobody else touches the table)', 'the call "%s" (C auto max_nr_buckets resize_target size count) did not return within 20 s: the request loop spins without any other thread interfering' % last,
+                     concrete={'probe': 'harness/seqdiff/lfht_lazy.c', 'args': cmd[1:], 'call (auto max_nr_buckets resize_target size count)': last})
+            lines = lines[:-1]
+        inp = '\n'.join(l.split(' -> ')[0] for l in lines) + '\n'
+        rc2, mo, _ = sh([model], inp=inp, timeout=120); ml = mo.splitlines()
+        bad = [(a, b) for a, b in zip(lines, ml) if a != b]
+        ctx.cov['evaluations'] += len(lines); ctx.cov['traces_validated_against_impl'] = ctx.cov.get('traces_validated_against_impl', 0) + len(lines) - len(bad)
+        if bad or len(ml) != len(lines):
+            a, b = bad[0] if bad else ('<%d lines>' % len(lines), '<%d lines>' % len(ml))
+            ctx.fail('correspondence', 'LazyCount.lazy_count vs cds_lfht_resize_lazy_count (sequential)', '%d of %d calls differ; first: impl "%s" model "%s"' % (len(bad), len(lines), a, b),
+                     concrete={'probe': 'harness/seqdiff/lfht_lazy.c', 'args': cmd[1:], 'impl': a, 'model': b})
+    ctx.cov['input_distribution']['lazy resize requests (sequential)'] = {'calls': 4 * n}
+
 def run(ctx):
     ctx.cov['source_hash'] = source_hash(FILES)
     prove(ctx)
+    lazy_seq(ctx)
     for name, src, extra, defs, progs, bounds in scen_table():
         impl = build_scenario(ctx, name + '_c17', src, extra_src=extra, defs=defs)
         if not impl: continue
@@ -81,6 +138,24 @@ def run(ctx):
             for prog in ('A0R2/L0X', 'A0R2/L0P7'):
                 for k in range(0, 60 if ctx.quick() else 100, 2 if ctx.quick() else 1):
                     cases.append((prog, '>0' + '0a' * k + '>1>1' + '}0'))
+        if name == 'scen_lfhtx':
+            # the lazy resize request (issued inside add / del): with the resize worker suspended after an earlier request, a later request must complete alone
+            lz = []
+            for prog in ('c2/c1', 'c2/c0', 'c1/c0', 'c2/c1/c0'):
+                for k in range(0, 16 if ctx.quick() else 40):
+                    lz.append((prog, '1' * 0 + '0a' * k + '}1}1'))
+                    lz.append((prog, '>0' + '1b' * k + ('>2' if prog.count('/') > 1 else '') + '}1}1'))
+            rs = run_many([[impl, p, s + '01' * 300, '8', '8', 'o', '0', '0', '1'] for p, s in lz], timeout=20)
+            nlz = 0; blocks = []
+            for (p, s), (rc, raw) in zip(lz, rs):
+                o = oracle(name, dict(bounds, lazycount=40), raw)
+                nsolo_lz = len(re.findall(r'^\d+ solo \d+ ok', raw, flags=re.M)); ctx.cov['distinct_nontrivial'] += nsolo_lz
+                if o:
+                    nlz += 1
+                    if nlz <= 2: ctx.fail('oracle', 'solo-run progress oracle (lazy resize request, worker suspended)', o, concrete={'scenario': name, 'prog': p, 'schedule': s + '01' * 300, 'args': ['8', '8', 'o', '0', '0', '1'], 'verdict': o})
+                blocks.append(lazy_project(raw))
+            ctx.cov['evaluations'] += len(lz); ctx.cov['oracle_violations'] = ctx.cov.get('oracle_violations', 0) + nlz
+            lazy_model_compare(ctx, lz, blocks)
         while len(cases) < n + len(progs) * 40:
             prog = ctx.rng.choice(progs); th = [str(i) for i in range(prog.count('/') + 1)]; v = ctx.rng.choice(th)
             cases.append((prog, bursty(ctx.rng, th, lo=5, hi=120, means=(1, 2, 5, 12)) + '}' + v + '}' + v))
